@@ -404,6 +404,22 @@ class Runner:
                 extra = [a for a in self.prop_info["axioms"] if a.split(".")[-1] not in {x.split(".")[-1] for x in STDLIB_AXIOMS}]
                 if extra:
                     self.build_problems.append(("forbidden", "non-stdlib axiom", ", ".join(extra)))
+        # thorough tier: the independent checker re-checks the compiled property file and everything it depends on
+        self.coqchk = None
+        if self.tier == "thorough" and self.prop_info and self.prop_info.get("compiled") and os.environ.get("VERIF_NO_COQCHK") != "1":
+            rc, out, dt = sh(["coqchk", "-silent", "-o", "-Q", ".", "LH", "LH.Properties.%s" % pid], cwd=COQ, timeout=5400)
+            tail = out[-2500:]
+            m = re.search(r"\* Axioms:\s*(.*?)\n\s*\n\* Constants/Inductives relying on type-in-type:\s*(.*?)\n\s*\n"
+                          r"\* Constants/Inductives relying on unsafe \(co\)fixpoints:\s*(.*?)\n\s*\n"
+                          r"\* Inductives whose positivity is assumed:\s*(.*?)\n", out, flags=re.S)
+            groups = [g.strip() for g in m.groups()] if m else None
+            clean = rc == 0 and groups is not None and all(g == "<none>" for g in groups[1:])
+            axioms = [] if (groups and groups[0] == "<none>") else ([a.strip() for a in groups[0].split("\n") if a.strip()] if groups else ["?"])
+            extra = [a for a in axioms if a.split(".")[-1] not in {x.split(".")[-1] for x in STDLIB_AXIOMS}]
+            self.coqchk = {"cmd": "coqchk -silent -o -Q . LH LH.Properties.%s" % pid, "exit": rc, "wall_s": round(dt),
+                           "axioms": axioms, "clean": bool(clean and not extra)}
+            if not (clean and not extra):
+                self.build_problems.append(("theorem", "coqchk LH.Properties.%s" % pid, tail))
         if need_model:
             ok, out, exe = build_ocaml(pid)
             if not ok:
@@ -669,6 +685,7 @@ class Runner:
             "make_s": getattr(self, "make_s", None),
             "coq_files_in_closure": getattr(self, "closure", []),
             "forbidden_tokens_outside_closure": getattr(self, "forbidden_elsewhere", []),
+            "coqchk": getattr(self, "coqchk", None) or "thorough tier only",
         }
         if extra_cov:
             cov.update(extra_cov)
